@@ -404,7 +404,13 @@ impl<'a> V<'a> {
                     s.uint(v);
                 }
                 4 => s.set(v, true, "body.certificates", |s, x| s.certificate(x)),
-                5 => s.withdrawals(v),
+                5 => {
+                    // withdrawals = {+ reward_account => coin}: a body that has the key has at least one entry
+                    if v.as_map().map(|m| m.is_empty()).unwrap_or(false) {
+                        s.err("body.withdrawals: empty map (the schema requires at least one withdrawal; an empty collection is written by leaving the key out)");
+                    }
+                    s.withdrawals(v)
+                }
                 6 => s.update(v),
                 7 => {
                     s.fire("body.auxiliary_data_hash");
@@ -433,7 +439,12 @@ impl<'a> V<'a> {
                     s.uint(v);
                 }
                 18 => s.set(v, true, "body.reference_inputs", |s, x| s.input(x)),
-                19 => s.voting_procedures(v),
+                19 => {
+                    if v.as_map().map(|m| m.is_empty()).unwrap_or(false) {
+                        s.err("body.voting_procedures: empty map (the schema requires at least one voter)");
+                    }
+                    s.voting_procedures(v)
+                }
                 20 => s.set(v, true, "body.proposal_procedures", |s, x| s.proposal(x)),
                 21 => {
                     s.fire("body.current_treasury_value");
